@@ -223,7 +223,12 @@ class Body:
             sw = t['a']['p'][0]
         post = []
         if t['k'] == 'call' and len(t['d']) >= 1:
-            post.append(('kill', t['d'][0]))
+            # `Try::branch(r)` maps Ok->Continue(0), Err->Break(1): same discriminant numbers
+            if (t.get('f') == 'std::ops::Try::branch' and len(t['d']) == 1 and t['a'] and t['a'][0].get('o') in ('c', 'm')
+                    and len(t['a'][0]['p']) == 1 and 'std::result::Result<' in (t.get('fa') or '')):
+                post.append(('copy', t['d'][0], t['a'][0]['p'][0]))
+            else:
+                post.append(('kill', t['d'][0]))
             for a in t['a']:
                 if a.get('o') == 'm' and len(a['p']) == 1:
                     post.append(('kill', a['p'][0]))
@@ -270,7 +275,13 @@ class Body:
                 tgt = t['ts'][-1]
             allowed = {tgt}
         for op in post:
-            k.pop(op[1], None)
+            if op[0] == 'copy':
+                if op[2] in k and op[1] not in trk_bad:
+                    k[op[1]] = k[op[2]]
+                else:
+                    k.pop(op[1], None)
+            else:
+                k.pop(op[1], None)
         return allowed, tuple(sorted(k.items(), key=lambda x: str(x[0])))
 
     def find_path(self, starts, goals, removed=frozenset(), removed_edges=frozenset(), sensitive=True):
